@@ -34,8 +34,30 @@ def guards(path):
 def apply(g):
     src = open(g["file"]).read().split("\n"); pre = "} else if " if g["elseif"] else "if "
     indent = re.match(r'\s*', src[g["line"] - 1]).group(0)
-    src[g["line"] - 1:g["end"]] = [f"{indent}{pre}false && ({g['cond']}) {{"]
+    cond = g.get("newcond") or f"false && ({g['cond']})"
+    src[g["line"] - 1:g["end"]] = [f"{indent}{pre}{cond} {{"]
     open(g["file"], "w").write("\n".join(src))
+
+def split_top(cond, op):
+    """split at the first top-level occurrence of `op` (not inside parentheses / brackets / braces / closures)"""
+    depth = 0
+    for i in range(len(cond) - 1):
+        c = cond[i]
+        if c in "([{": depth += 1
+        elif c in ")]}": depth -= 1
+        elif depth == 0 and cond[i:i + 2] == op and (op != "||" or cond[max(0, i - 1)] != "|"): return cond[:i].strip(), cond[i + 2:].strip()
+    return None
+
+def operator_variants(g):
+    out = []
+    for op, other in (("||", "&&"), ("&&", "||")):
+        sp = split_top(g["cond"], op)
+        if sp and not (op == "||" and "|row|" in g["cond"][:0]):
+            a, b = sp
+            out.append({**g, "newcond": f"({a}) {other} ({b})", "variant": f"first `{op}` -> `{other}`"})
+            if op == "||":
+                out.append({**g, "newcond": a, "variant": "second disjunct dropped"}); out.append({**g, "newcond": b, "variant": "first disjunct dropped"})
+    return out
 
 def sh(cmd, cwd=None, timeout=1800):
     return subprocess.run(cmd, shell=True, cwd=cwd, capture_output=True, text=True, timeout=timeout)
@@ -46,11 +68,15 @@ def main():
     if "--files" in a: files = a[a.index("--files") + 1].split(",")
     if "--only" in a: only = [int(x) for x in a[a.index("--only") + 1].split(",")]
     if "--list" in a: lst = True
+    ops = "--ops" in a
     allg = []
     for f in files:
-        for g in guards(f"{REPO}/{FILES[f]}"): g["short"] = f; allg.append(g)
+        for g in guards(f"{REPO}/{FILES[f]}"):
+            g["short"] = f
+            if ops: allg += operator_variants(g)
+            else: allg.append(g)
     if lst:
-        for k, g in enumerate(allg): print(k, g["short"], g["line"], g["fn"], "|", g["cond"][:90], "=>", g["err"])
+        for k, g in enumerate(allg): print(k, g["short"], g["line"], g["fn"], "|", (g.get("variant", "") + " :: " + g.get("newcond", g["cond"]))[:120], "=>", g["err"][:40])
         return
     report = []
     for k, g in enumerate(allg):
@@ -67,9 +93,9 @@ def main():
             fails = [f for f in j.get("impl_vs_oracle_failures", []) if f.get("witness") not in KNOWN]
             if fails or j.get("model_disagreements"): caught.append(f"{d}:{(fails or [{}])[0].get('witness', 'disagreement')}"); break
         report.append({**g, "k": k, "result": "caught" if caught else "SURVIVED", "by": caught, "wall_s": round(time.time() - t0)})
-        print(k, report[-1]["result"], caught, "|", g["short"], g["line"], g["fn"], "|", g["cond"][:70], "=>", g["err"][:40], flush=True)
+        print(k, report[-1]["result"], caught, "|", g["short"], g["line"], g["fn"], "|", (g.get("variant", "") + " " + g.get("newcond", g["cond"]))[:100], "=>", g["err"][:40], flush=True)
     sh("git checkout -- .", cwd=REPO)
-    out = "/verif/seeded/self-mutation.json"; prev = []
+    out = "/verif/seeded/self-mutation-operators.json" if ops else "/verif/seeded/self-mutation.json"; prev = []
     if only is not None and os.path.exists(out): prev = [x for x in json.load(open(out)) if x["k"] not in only]
     json.dump(sorted(prev + report, key=lambda x: x["k"]), open(out, "w"), indent=1)
 
